@@ -484,7 +484,7 @@ def _benign_corpus():
     root = os.path.join(os.path.dirname(os.path.abspath(__file__)), "patches")
     allp = ["C%02d" % i for i in range(1, 21)]
     for f in sorted(os.listdir(root)) if os.path.isdir(root) else []:
-        if re.fullmatch(r"ben-C\d\d-\d+\.diff", f):
+        if re.fullmatch(r"ben-[BC]\d\d-\d+\.diff", f):
             patch_case(f[:-5], "benign", allp, "selftest/patches/" + f)
 
 
